@@ -1831,6 +1831,15 @@ fn branch_cases() -> Vec<(&'static str, &'static str)> {
         // ... and the same handshakes left alone, completed before the removal, refused while pending
         ("21", "e1,D,Q4:5,E1,s2,D,Q6:5,R2:2"),
         ("21", "e1,E0,S1,e0,D,D,s9,D,X,e0,X,D"),
+        // what a restart reloads: removal, the index commissioned again and committed, restart without /
+        // with the background flush
+        ("21", "E1,F,R2:2,A1,N1:3,E3,K5,X,S1,S2,E3"),
+        ("21", "E1,F,R2:2,F,A1,N1:3,E3,K5,F,X,S1,S2"),
+        ("21", "H2:9,E1,R3:2,A1,N1:3,E3,K6,X,S1,S2,S3"),
+        // a committed fabric removed while the fail-safe is armed for it over its own CASE session
+        ("21", "A3,R3:2,T,E1,Q3:5,X,E1"),
+        ("21", "E1,F,A3,U3,R2:2,Z2,E1,S1,X,E1,S1"),
+        ("20", "A2,R3:1,X,E0,A3,R3:2,V3,E1"),
         // nothing to do
         ("20", "T,X,T,O,F,S1,E3,H3:5,G0,Z2,V3"),
     ]
@@ -1964,6 +1973,139 @@ fn generate(tier: &str, seed: u64) -> Vec<String> {
         }
         let _ = next;
         cases.push(format!("S {} 21 {}", nid(), v.join(",")));
+    }
+    // store stream: what a restart reloads after a removal. Records of fabric 2 exist (and may have been
+    // flushed), the fabric is removed (or a commissioning with flushed records is rolled back), the index
+    // is commissioned again and COMMITTED, then the node restarts - with and without the background
+    // flush having run in between - and the old records / sessions are probed.
+    let n_store = if thorough { 3000 } else { 300 };
+    for _ in 0..n_store {
+        let mut v: Vec<String> = Vec::new();
+        let mut next = 4u64;
+        let mut nrec = 0u64;
+        let flush = |rng: &mut Rng, v: &mut Vec<String>, num: u64, den: u64| {
+            if rng.chance(num, den) {
+                v.push("F".into());
+            }
+        };
+        let idx; // the index that is removed and handed out again
+        if rng.chance(2, 3) {
+            // committed fabric 2, removed by an administrator
+            idx = 2u8;
+            for _ in 0..1 + rng.below(2) {
+                if rng.chance(2, 3) {
+                    v.push("E1".into());
+                } else {
+                    v.push(format!("H2:{}", rng.pick(&[ADMIN, 9, 10])));
+                }
+                next += 1;
+                nrec += 1;
+            }
+            flush(&mut rng, &mut v, 2, 3);
+            v.push(rng.pick(&["R2:2", "R3:2", "R1:2"]).to_string());
+            flush(&mut rng, &mut v, 1, 3);
+            v.push("A1".into());
+        } else {
+            // fabric 3 of a commissioning that is rolled back after its records were flushed
+            idx = 3u8;
+            v.push("A1".into());
+            v.push("N1:2".into());
+            v.push("E2".into());
+            next += 1;
+            nrec += 1;
+            flush(&mut rng, &mut v, 2, 3);
+            v.push(rng.pick(&["T", "Z1", "V1", "Z2"]).to_string());
+            flush(&mut rng, &mut v, 1, 3);
+            v.push("P".into());
+            v.push(format!("A{}", next));
+            next += 1;
+        }
+        // the index is commissioned again ...
+        let p = if idx == 2 { 1 } else { next - 1 };
+        let root = 3;
+        v.push(format!("N{}:{}", p, root));
+        v.push(format!("E{}", root));
+        let admin = next;
+        next += 1;
+        nrec += 1;
+        // ... and committed (mostly)
+        if rng.chance(5, 6) {
+            v.push(format!("K{}", admin));
+        }
+        if rng.chance(1, 3) {
+            v.push(format!("Q{}:{}", admin, 1 + rng.below(9)));
+        }
+        flush(&mut rng, &mut v, 1, 3);
+        v.push("X".into());
+        for _ in 0..2 + rng.below(3) {
+            match rng.below(4) {
+                0 | 1 => v.push(format!("S{}", 1 + rng.below(nrec + 1))),
+                2 => {
+                    v.push(format!("E{}", root));
+                    next += 1;
+                }
+                _ => v.push("F".into()),
+            }
+        }
+        if rng.chance(1, 2) {
+            v.push("X".into());
+            v.push(format!("S{}", 1 + rng.below(nrec + 2)));
+        }
+        let _ = next;
+        cases.push(format!("S {} 21 {}", nid(), v.join(",")));
+    }
+    // armed-removal stream: a COMMITTED fabric is removed while the fail-safe is armed for it over one of
+    // its CASE sessions; then the fail-safe expires (timer, ArmFailSafe(0), RevokeCommissioning) or the node
+    // restarts: nothing of the removed fabric may come back from the store.
+    let n_armed = if thorough { 3000 } else { 300 };
+    for _ in 0..n_armed {
+        let mut v: Vec<String> = Vec::new();
+        // fabric f (1 or 2), its administrator's session a, the other administrator's session b
+        let (f, a, b, root) = if rng.chance(2, 3) { (2u8, 3u64, 2u64, 1usize) } else { (1u8, 2u64, 3u64, 0usize) };
+        let pase = rng.chance(1, 2);
+        let mut nrec = 0u64;
+        if rng.chance(1, 2) {
+            v.push(format!("E{}", root));
+            nrec += 1;
+            if rng.chance(1, 2) {
+                v.push("F".into());
+            }
+        }
+        v.push(format!("A{}", a));
+        if rng.chance(1, 3) {
+            v.push(format!("U{}", a));
+        }
+        if rng.chance(1, 3) {
+            v.push(format!("Q{}:{}", a, 1 + rng.below(9)));
+        }
+        if rng.chance(1, 3) {
+            v.push(format!("B{}", a));
+        }
+        v.push(format!("R{}:{}", rng.pick(&[a, b]), f));
+        if rng.chance(1, 3) {
+            v.push("F".into());
+        }
+        let other = b;
+        v.push(match rng.below(5) {
+            0 | 1 => "T".to_string(),
+            2 => format!("Z{}", other),
+            3 => format!("V{}", other),
+            _ => "X".to_string(),
+        });
+        // probes: the removed fabric's credentials, records and sessions
+        v.push(format!("E{}", root));
+        v.push(format!("Q{}:{}", a, 1 + rng.below(9)));
+        if nrec > 0 {
+            v.push("S1".into());
+        }
+        if rng.chance(1, 2) {
+            v.push("X".into());
+            v.push(format!("E{}", root));
+        }
+        if rng.chance(1, 2) {
+            v.push("O".into());
+        }
+        cases.push(format!("S {} 2{} {}", nid(), pase as u8, v.join(",")));
     }
     // random sequences of <= 25 operations; a light-weight picture of the node steers them
     // towards meaningful sessions and indices (the model decides what really happens)
